@@ -12,6 +12,7 @@ LEVEL = 'other'
 
 def check(repo, rep):
     cx = Ctx(repo)
+    rep.cx = cx
     # ---------------------------------------------------------------- E3 obligations (one read per iteration, same-iteration hand-over, eos once, latency)
     d = feed(rep, repo, 'C08', 'general')
     gen_name = None
